@@ -308,11 +308,68 @@ pub fn check_text(text: &str) -> Option<String> {
     None
 }
 
+/// Helix sends its selection with every code-action request: a selection that starts on line L — the whole line
+/// `(L,0)-(L+1,0)`, the line break `(L,len)-(L+1,0)`, one character — is answered with the actions of the block at line L,
+/// exactly as the empty range at `(L,0)` is (same kinds, same target node)
+pub fn check_helix_ranges(text: &str) -> Option<String> {
+    use iwes::router::{server::Server, LspClient, ServerConfig};
+    use liwe::model::config::Configuration;
+    let mut state: std::collections::HashMap<String, String> = std::collections::HashMap::new();
+    state.insert("a".to_string(), text.to_string());
+    for k in ["n1", "n2", "n3"] {
+        state.insert(k.to_string(), format!("# {}\n", k));
+    }
+    let server = dump::catch(|| Server::new(ServerConfig { base_path: "/lib".to_string(), state, sequential_ids: Some(true), configuration: Configuration::default(), lsp_client: LspClient::Helix })).ok()?;
+    let td = TextDocumentIdentifier { uri: act::uri("a") };
+    let offered = |sl: u32, sc: u32, el: u32, ec: u32| -> Option<Vec<String>> {
+        dump::catch(|| {
+            server.handle_code_action(&CodeActionParams {
+                text_document: td.clone(),
+                range: Range::new(Position::new(sl, sc), Position::new(el, ec)),
+                context: CodeActionContext { diagnostics: vec![], only: None, trigger_kind: None },
+                work_done_progress_params: Default::default(),
+                partial_result_params: Default::default(),
+            })
+        })
+        .ok()
+        .map(|acts| {
+            let mut v: Vec<String> = acts
+                .iter()
+                .map(|a| match a {
+                    CodeActionOrCommand::CodeAction(c) => format!("{:?} {:?} {:?}", c.title, c.kind, c.data),
+                    CodeActionOrCommand::Command(c) => format!("command {:?}", c.title),
+                })
+                .collect();
+            v.sort();
+            v
+        })
+    };
+    let lines: Vec<&str> = text.split('\n').collect();
+    for (l, line_text) in lines.iter().enumerate() {
+        let l = l as u32;
+        let len = line_text.trim_end_matches('\r').encode_utf16().count() as u32;
+        let base = offered(l, 0, l, 0)?;
+        for (sc, el, ec, what) in [(0, l + 1, 0, "the whole line"), (len, l + 1, 0, "the line break"), (0, l, 1, "one character")] {
+            let got = offered(l, sc, el, ec)?;
+            if got != base {
+                return Some(format!("helix selection of {} at line {} ({}:{}-{}:{}) is offered {:?}, the cursor at {}:0 is offered {:?}", what, l, l, sc, el, ec, got, l, base));
+            }
+        }
+    }
+    None
+}
+
 pub fn run(ctx: &Ctx, model: &mut Model, rep: &mut Report) {
     rep.rule = "small notes with links in headings, paragraphs, list items, quotes, emphasis, wiki links (bare, piped), block references; every (line, character) position of the text incl. one past each line end; ASCII + LF texts in the main stream, CRLF and multi-byte / astral characters in the attribution stream; correspondence: the model's inline range and line range of every link / block byte range (from the harness' own pulldown pass) vs the ranges in the real reader's output; oracle: go-to-definition and prepare-rename act exactly inside link source spans (LSP UTF-16 positions), prepare-rename range = destination span; references to a note are reported at the first line of the block holding the link; \"Extract section\" only on heading lines and list conversions only on list lines; every note loaded by one of five loading modes (incl. a shift of all lines by an edit); non-trivial = text with a link; distinct by text".to_string();
     if let Some(path) = &ctx.replay {
         let v: serde_json::Value = serde_json::from_str(&std::fs::read_to_string(path).unwrap()).unwrap();
         rep.evaluations += 1;
+        if v["kind"] == "helix_selection" {
+            if let Some(w) = check_helix_ranges(v["text"].as_str().unwrap_or("")) {
+                rep.fail(json!({"kind": "helix_selection", "text": v["text"], "what": w}));
+            }
+            return;
+        }
         if let Some(w) = act::with_via(act::via_from(&v["via"]), || check_text(v["text"].as_str().unwrap_or(""))) {
             rep.fail(json!({"kind": "position", "text": v["text"], "what": w}));
         }
@@ -378,6 +435,12 @@ pub fn run(ctx: &Ctx, model: &mut Model, rep: &mut Report) {
                 rep.disagree(json!({"op": "to_inline_range of links", "text": text, "model": format!("{:?}", model_links), "impl": format!("{:?}", rl)}));
             } else if model_blocks != rb {
                 rep.disagree(json!({"op": "to_line_range of blocks", "text": text, "model": format!("{:?}", model_blocks), "impl": format!("{:?}", rb)}));
+            }
+        }
+        if i % 4 == 1 {
+            rep.count("helix_selection_cases");
+            if let Some(w) = check_helix_ranges(&text) {
+                rep.fail(json!({"kind": "helix_selection", "text": text, "what": w}));
             }
         }
         let via = act::via_for(i as u64);
